@@ -763,3 +763,51 @@ Proof.
     destruct (from_binds mt ld key r) eqn:B; [|discriminate].
     inversion H; subst. constructor; [split; [reflexivity|exact A]|apply IH; reflexivity].
 Qed.
+
+(** a pyimport step never looks at the context: what it merges into the imports namespace is the
+    same whatever keys the context holds at that moment — so an imported name that a context key
+    hides is still there when the key goes away *)
+Lemma session_import_ignores_context mt b blk r s c' :
+  match pyimport_ns mt blk [] (loaded s) with
+  | Some (stepns, ld) =>
+      run_session mt b (AImport blk :: r) (set_ctx c' s)
+      = run_session mt b r (set_ctx c' (set_loaded ld (set_imps (ns_update (imps s) stepns) s)))
+  | None => run_session mt b (AImport blk :: r) (set_ctx c' s) = None
+  end.
+Proof.
+  simpl. destruct (pyimport_ns mt blk [] (loaded s)) as [[stepns ld]|]; reflexivity.
+Qed.
+
+Lemma ns_get_del_other k k' d : k <> k' -> ns_get k (ns_del k' d) = ns_get k d.
+Proof.
+  intros N. induction d as [|[k2 v2] r IH]; simpl; [reflexivity|].
+  destruct (String.eqb k' k2) eqn:E; simpl.
+  - apply String.eqb_eq in E; subst k2. apply String.eqb_neq in N. now rewrite N.
+  - now rewrite IH.
+Qed.
+
+Lemma ns_get_del_nodup k d : NoDup (ns_keys d) -> ns_get k (ns_del k d) = None.
+Proof.
+  induction d as [|[k2 v2] r IH]; simpl; intros N; [reflexivity|].
+  inversion N as [|? ? Hn Hr]; subst.
+  destruct (String.eqb k k2) eqn:E; simpl.
+  - apply String.eqb_eq in E; subst k2.
+    clear IH N Hr. induction r as [|[k3 v3] r IH]; simpl in *; [reflexivity|].
+    destruct (String.eqb k k3) eqn:E3; [apply String.eqb_eq in E3; subst; exfalso; apply Hn; now left|].
+    apply IH. intros H. apply Hn. now right.
+  - rewrite E. apply IH. assumption.
+Qed.
+
+(** the sequence of round 8: a pyimport step binds [k] while the context has a key [k]; the key is
+    dropped; a read of [k] — from any scope — now resolves to the import *)
+Theorem import_survives_hidden_key E k v stepns s :
+  gk E = GChain -> cls E = false -> find_local k (frames s) false = LNotLocal ->
+  ns_get k (scr s) = None -> NoDup (ns_keys (ctx s)) -> NoDup (ns_keys stepns) ->
+  ns_get k stepns = Some v ->
+  let s' := set_ctx (ns_del k (ctx s)) (set_imps (ns_update (imps s) stepns) s) in
+  load_var E k s' = (Ok v, s').
+Proof.
+  intros G C L S Nc Ns H. cbv zeta. apply load_import; try assumption.
+  - simpl. apply ns_get_del_nodup. assumption.
+  - simpl. apply ns_get_update_in; assumption.
+Qed.
